@@ -519,7 +519,22 @@ class NPProxy:
         self.nan = _np.nan; self.inf = _np.inf; self.pi = _np.pi
 
     def __getattr__(self, k):
-        return getattr(_np, k)
+        real = getattr(_np, k)
+        if not callable(real) or isinstance(real, type):
+            return real
+
+        def passthrough(*a, **kw):
+            # numpy's own function (shapes, stacking, ...); when it cannot cope with symbolic elements the analysis stops as
+            # "unsupported" instead of reporting a crash of the checker
+            try:
+                return real(*a, **kw)
+            except (Unsupported, PathLimit):
+                raise
+            except Exception as e:
+                if any(symbolic(x) for x in a) or any(symbolic(x) for x in kw.values()):
+                    raise Unsupported('numpy.%s on symbolic values: %s: %s' % (k, type(e).__name__, str(e)[:120]))
+                raise
+        return passthrough
 
     @staticmethod
     def _elem(f, *xs):
@@ -664,6 +679,29 @@ class NPProxy:
         a = _np.asarray(x, dtype=object).view(_np.ndarray)
         r = _np.add.reduce(a, axis=axis) if axis is not None else _np.add.reduce(a.ravel())
         return r.view(SA) if isinstance(r, _np.ndarray) else r
+
+    def _reduce_minmax(self, x, axis, pick_max, name):
+        if not symbolic(x):
+            return getattr(_np, name)(x, axis=axis)
+        a = _np.asarray(x, dtype=object)
+        for e in a.flat:
+            if isinstance(e, SymReal) and not z3.is_false(z3.simplify(e.nan)):
+                raise Unsupported('numpy.%s on values that may be NaN' % name)
+        import functools
+        red = lambda seq: functools.reduce(lambda u, v: minmax(u, v, pick_max), list(seq))
+        if axis is None:
+            return red(a.ravel())
+        a = _np.moveaxis(a, axis, -1)
+        out = _np.empty(a.shape[:-1], dtype=object)
+        for idx in _np.ndindex(*a.shape[:-1]):
+            out[idx] = red(a[idx])
+        return out.view(SA) if out.ndim else out.item()
+
+    def min(self, x, axis=None, **k): return self._reduce_minmax(x, axis, False, 'min')
+    def max(self, x, axis=None, **k): return self._reduce_minmax(x, axis, True, 'max')
+    def nanmin(self, x, axis=None, **k): return self._reduce_minmax(x, axis, False, 'nanmin')
+    def nanmax(self, x, axis=None, **k): return self._reduce_minmax(x, axis, True, 'nanmax')
+    amin = min; amax = max
 
     def prod(self, x, axis=None, **k):
         if not symbolic(x):
